@@ -142,12 +142,35 @@ if SK and MODE in ("comments", "nocl", "gaps-vs-base"):
         BASE = repr(e)
 
 
+def _related(a, b):
+    """is function a an ancestor or a descendant of function b (by the generator's nesting)?"""
+    names = [t["name"] for t in SK.truth]
+    if a not in names or b not in names:
+        return False
+    ia, ib = names.index(a), names.index(b)
+
+    def anc(i, j):
+        p = SK.truth[j]["parent"]
+        while p is not None:
+            if p == i:
+                return True
+            p = SK.truth[p]["parent"]
+        return False
+    return anc(ia, ib) or anc(ib, ia)
+
+
 def _expected_from_base(nl, cs, ell=None):
+    """-> list of (name, start line, start col, end line, end col, value); for functions nested in / enclosing an omitted function only the name is
+    prescribed (the statement leaves their span and length open), marked by value None."""
+    omitted = [name for (name, st, en, val, nm) in BASE if ell is not None and nl[nm.location.line] == ell]
     exp = []
     for (name, st, en, val, nm) in BASE:
-        if ell is not None and nl[nm.location.line] == ell:
+        if name in omitted:
             continue
-        exp.append((name, nl[st.location.line], _col(st, cs), nl[en.location.line], _col(en, cs) + len(en.value), val))
+        if any(_related(name, o) for o in omitted):
+            exp.append((name, None, None, None, None, None))
+        else:
+            exp.append((name, nl[st.location.line], _col(st, cs), nl[en.location.line], _col(en, cs) + len(en.value), val))
     return exp
 
 
@@ -156,7 +179,10 @@ def _same(ms, exp):
         return False
     ok = True
     for m, e in zip(ms, exp):
-        ok = ok and m.unit_name == e[0] and m.start.line == e[1] and m.start.column == e[2] and m.end.line == e[3] and m.end.column == e[4] and m.value == e[5]
+        if e[5] is None:
+            ok = ok and m.unit_name == e[0]
+        else:
+            ok = ok and m.unit_name == e[0] and m.start.line == e[1] and m.start.column == e[2] and m.end.line == e[3] and m.end.column == e[4] and m.value == e[5]
     return ok
 
 
@@ -231,6 +257,8 @@ def _real(gs, cs, extra_comments=False, nocl_line=None):
         got = repr(e)
     nl = _newline(gs)
     exp = _expected(nl, cs) if MODE == "layout" else _expected_from_base(nl, cs, nocl_line)
+    if isinstance(got, list) and len(got) == len(exp):
+        got = [g if e[5] is not None else (g[0], None, None, None, None, None) for g, e in zip(got, exp)]
     kinds = []
     culprit = None
     if got != exp:
